@@ -166,7 +166,7 @@ def _shapes_dsa(tier, prop=None):
     if prop == "C10" and tier == "quick":
         return [q[1], q[3], q[6], big[1]]
     q = q + big
-    if tier != "thorough":
+    if tier != "thorough" or prop == "C10":
         return q
     return q + [
         dict(spec="chain3", stop_cycle=2, algo_params=dict(variant="B", **P1)),
